@@ -297,13 +297,19 @@ func openGeopackage(file string) *gpkg.Handle {
 	return handle
 }
 
+// quoteIdentifier writes a column name as an SQL identifier: in double quotes, a double quote in the name doubled,
+// so that names that are keywords or contain spaces can be used
+func quoteIdentifier(name string) string {
+	return `"` + strings.ReplaceAll(name, `"`, `""`) + `"`
+}
+
 // createSQL creates a CREATE statement on the given table and column information
 // used for creating feature tables in the target Geopackage
 func (t Table) createSQL() string {
 	create := fmt.Sprintf(`CREATE TABLE IF NOT EXISTS "%v"`, t.Name)
 	var columnparts []string
 	for _, column := range t.columns {
-		columnpart := column.name + ` ` + column.ctype
+		columnpart := quoteIdentifier(column.name) + ` ` + column.ctype
 		if column.notnull == 1 {
 			columnpart += ` NOT NULL`
 		}
@@ -323,7 +329,7 @@ func (t Table) createSQL() string {
 func (t Table) selectSQL() string {
 	var csql []string
 	for _, c := range t.columns {
-		csql = append(csql, c.name)
+		csql = append(csql, quoteIdentifier(c.name))
 	}
 	query := `SELECT ` + strings.Join(csql, `,`) + ` FROM "` + t.Name + `";`
 	return query
@@ -335,11 +341,11 @@ func (t Table) insertSQL() string {
 	var csql, vsql []string
 	for _, c := range t.columns {
 		if c.name != t.gcolumn {
-			csql = append(csql, c.name)
+			csql = append(csql, quoteIdentifier(c.name))
 			vsql = append(vsql, `?`)
 		}
 	}
-	csql = append(csql, t.gcolumn)
+	csql = append(csql, quoteIdentifier(t.gcolumn))
 	vsql = append(vsql, `?`)
 	query := `INSERT INTO "` + t.Name + `"(` + strings.Join(csql, `,`) + `) VALUES(` + strings.Join(vsql, `,`) + `)`
 	return query
